@@ -184,6 +184,8 @@ impl Ph {
         let mut f = Flow::default();
         match *a {
             Act::Deposit(l, s) => {
+                // the store runs RevertibleMarket::update_fees_state before every deposit and withdrawal
+                update_fees(&mut st.m, &pr)?;
                 let _rep = st.m.deposit(l, s, pr)?.execute()?;
                 f.paid_in = [w(l), w(s)];
             }
@@ -193,10 +195,13 @@ impl Ph {
                     1 => st.m.supply / 2,
                     _ => 1,
                 };
+                update_fees(&mut st.m, &pr)?;
                 let rep = st.m.withdraw(amt, pr)?.execute()?;
                 f.paid_out = [w(*rep.long_token_output()), w(*rep.short_token_output())];
             }
             Act::Swap(is_long_in, amt) => {
+                // the store's swap_along_the_path updates the borrowing state of each market before swapping in it
+                st.m.update_borrowing(&pr)?.execute()?;
                 let rep = st.m.swap(is_long_in, amt, pr)?.execute()?;
                 let (i, o) = if is_long_in { (0, 1) } else { (1, 0) };
                 f.paid_in[i] = w(amt);
@@ -441,6 +446,8 @@ impl Ph {
             for is_long_in in [true, false] {
                 for &amt in &self.probes.swap_amounts {
                     let mut m = st.m.clone();
+                    // (the store updates the borrowing state of a market before swapping in it)
+                    let _ = m.update_borrowing(&pr).and_then(|a| a.execute());
                     let before = m.clone();
                     let r = m.swap(is_long_in, amt, pr).and_then(|a| a.execute());
                     out.probe_cases += 1;
@@ -504,6 +511,11 @@ impl Ph {
             for &(l, s) in &self.probes.deposits {
                 let mut m = st.m.clone();
                 out.probe_cases += 1;
+                // as the store does before a deposit (pending borrowing fees are materialised at the utilisation that earned them)
+                if update_fees(&mut m, &pr).is_err() {
+                    out.count("deposit_err", 1);
+                    continue;
+                }
                 let pv0 = m.pool_value(&pr, PnlFactorKind::MaxAfterDeposit, true).ok();
                 let s0 = m.supply;
                 let imp0 = m.swap_impact;
@@ -537,6 +549,10 @@ impl Ph {
                     out.count("deposit_minted_zero", 1);
                     continue;
                 }
+                if update_fees(&mut m, &pr).is_err() {
+                    out.count("withdraw_err", 1);
+                    continue;
+                }
                 let pw0 = m.pool_value(&pr, PnlFactorKind::MaxAfterWithdrawal, false).ok();
                 let Ok(wr) = m.withdraw(minted, pr).and_then(|a| a.execute()) else {
                     out.count("withdraw_err", 1);
@@ -561,6 +577,7 @@ impl Ph {
                     // positive swap impact the deposit took out of the impact pool (valued at max prices)
                     let imp1 = {
                         let mut mm = st.m.clone();
+                        let _ = update_fees(&mut mm, &pr);
                         let _ = mm.deposit(l, s, pr).and_then(|a| a.execute());
                         mm.swap_impact
                     };
